@@ -335,21 +335,45 @@ pub fn run(check: &mut Check) {
         // write side: files produced by the current tree at this page size conform to the pinned layout
         let cfg = Cfg { pagesize: g.pagesize, num_pages: 32, ..Cfg::default() };
         let or = Oracles { fileck: true, strict_layout: true, dump_after: true, rets: true, ..Oracles::NONE };
-        for h in crate::optx::histories(g.pagesize, tier, false) {
+        let mut hs = crate::optx::histories(g.pagesize, tier, false);
+        if g.pagesize <= 5000 {
+            // a free list that moves across the capacity of one page (overflow pages of the list page)
+            hs.push(crate::optx::freelist_boundary_history(g.pagesize));
+        }
+        let nh = hs.len();
+        if g.pagesize <= 5000 {
+            // the same while a reader pins every freed page (pre-sized file), last in the list
+            hs.push(crate::optx::pinned_freelist_history(g.pagesize));
+        }
+        for (hi, h) in hs.into_iter().enumerate() {
             produced += 1;
+            let cfg = if hi >= nh { Cfg { num_pages: 4 * ((g.pagesize as usize - 32) / 8 + 100), ..cfg.clone() } } else { cfg.clone() };
             let hist = History { cfg: cfg.clone(), actions: h.clone() };
-            match Runner::new(&path, cfg.clone()) {
-                Ok(mut r) => {
-                    for a in &h {
-                        for v in r.step(a, &or) {
-                            check.violation(&format!("produced:{}", v.class), &format!("[page size {}] {}", g.pagesize, v.detail), || json!({"engine": "seqx", "seed": 1, "history": hist.to_json()}));
-                        }
-                        if r.poisoned {
-                            break;
+            // in a forked copy: a change that corrupts memory must end the copy, not the check
+            let res = crate::isolate::run_in_child(300, || {
+                let mut vs: Vec<Value> = vec![];
+                match Runner::new(&path, cfg.clone()) {
+                    Ok(mut r) => {
+                        for a in &h {
+                            for v in r.step(a, &or) {
+                                vs.push(json!([format!("produced:{}", v.class), v.detail]));
+                            }
+                            if r.poisoned {
+                                break;
+                            }
                         }
                     }
+                    Err(e) => vs.push(json!(["produced:create_failed", e])),
                 }
-                Err(e) => check.violation("produced:create_failed", &e, || json!({"engine": "seqx", "seed": 1, "history": hist.to_json()})),
+                Value::Array(vs).to_string()
+            });
+            match res {
+                Ok(out) => {
+                    for v in serde_json::from_str::<Value>(&out).ok().and_then(|v| v.as_array().cloned()).unwrap_or_default() {
+                        check.violation(v[0].as_str().unwrap_or("produced"), &format!("[page size {}] {}", g.pagesize, v[1].as_str().unwrap_or("")), || json!({"engine": "seqx", "seed": 1, "history": hist.to_json()}));
+                    }
+                }
+                Err(e) => check.violation("produced:process_death", &format!("[page size {}] the process running this history {}", g.pagesize, e), || json!({"engine": "seqx", "seed": 1, "history": hist.to_json()})),
             }
         }
     }
